@@ -6,6 +6,7 @@ package dastard
 // Compiled only with `-tags verif`; adds no behaviour to the normal build.
 
 import (
+	"errors"
 	"time"
 
 	"gonum.org/v1/gonum/mat"
@@ -102,4 +103,74 @@ func (s *SourceControl) VerifC06MapLen() int {
 		return -1
 	}
 	return len(s.mapServer.Map.Pixels)
+}
+
+// VerifC06Start runs the real Start (Sample, PrepareChannels, PrepareRun, StartRun, go CoreLoop) on
+// the scripted source, with queue as the request queue of its CoreLoop; then, from inside the loop,
+// re-points the fresh processors' record output to the capture channel (instead of ZeroMQ).
+func (vs *VerifSource) VerifC06Start(queue chan func(), npre, nsamp int) error {
+	if PubRecordsChan == nil {
+		PubRecordsChan = make(chan []*DataRecord, 1)
+	}
+	if PubSummariesChan == nil {
+		PubSummariesChan = make(chan []*DataRecord, 1)
+	}
+	if err := Start(vs, queue, npre, nsamp); err != nil {
+		return err
+	}
+	done := make(chan struct{})
+	queue <- func() {
+		vs.captured = make(chan []*DataRecord, 4*vs.nchan+16)
+		for _, dsp := range vs.processors {
+			dsp.PubRecordsChan = vs.captured
+			dsp.PubSummariesChan = nil
+		}
+		close(done)
+	}
+	<-done
+	return nil
+}
+
+// VerifC06PushBlock hands one block (one segment per channel) to the running CoreLoop through the
+// source's block channel, as a producer does, waits until the loop has processed it and returns the
+// number of records each channel published.
+func (vs *VerifSource) VerifC06PushBlock(queue chan func(), firstFrame int64, firstTimeNs int64, periodNs int64,
+	data [][]RawType) []int {
+	block := new(dataBlock)
+	block.segments = make([]DataSegment, len(data))
+	for i, d := range data {
+		block.segments[i] = DataSegment{rawData: d, framesPerSample: 1, firstFrameIndex: FrameIndex(firstFrame),
+			firstTime: time.Unix(0, firstTimeNs), framePeriod: time.Duration(periodNs), voltsPerArb: 1. / 65535.0}
+	}
+	if len(data) > 0 {
+		block.nSamp = len(data[0])
+	}
+	vs.nextBlock <- block
+	counts := make([]int, len(data))
+	done := make(chan struct{})
+	queue <- func() { // runs after the block has been processed
+		for {
+			select {
+			case batch := <-vs.captured:
+				for _, r := range batch {
+					if r.channelIndex < len(counts) {
+						counts[r.channelIndex]++
+					}
+				}
+				continue
+			default:
+			}
+			break
+		}
+		close(done)
+	}
+	<-done
+	return counts
+}
+
+// VerifC06EndByItself makes the source end on its own: the producer hands the CoreLoop an error
+// block (a lost device), the loop returns; waits until the run is done.
+func (vs *VerifSource) VerifC06EndByItself() {
+	vs.nextBlock <- &dataBlock{err: errors.New("verif: device lost")}
+	vs.RunDoneWait()
 }
